@@ -51,6 +51,10 @@ Inductive tfield :=
 | FMac                                     (* TSIG: "mac_len mac"; base64.b64decode(tok.get_string()), length compared *)
 | FOther                                   (* TSIG: "other_len [other]"; the data token is read only when other_len > 0 *)
 | FGposStr                                 (* GPOS latitude / longitude / altitude: get_string, kept as the octets of the text *)
+| FAddr4S                                  (* WKS address: get_string + _as_ipv4_address *)
+| FWksProto                                (* WKS protocol: a number (names go to socket.getprotobyname: not modelled) *)
+| FWksPorts                                (* WKS: the remaining tokens are port numbers (names: getservbyname, not modelled);
+                                              the value is the bitmap *)
 | FAplRest                                 (* APL: the remaining tokens as [!]family:address/prefix items *)
 | FKeyRec.                                 (* the whole KEY record: flags (number or LegacyFlag mnemonics joined by "|"),
                                               protocol (number or mnemonic), algorithm, and the key unless the flags say NOKEY *)
@@ -728,6 +732,24 @@ Definition nsap_from_text (t : list Z) : res (list Z) :=
     if negb (Nat.even (length h)) then Lib eSyntax
     else do e <- utf8_encode h; unhexlify e.
 
+(* dns/rdtypes/IN/WKS.py: bitmap[i] |= 0x80 >> (serv % 8) after growing the bytearray to i + 1 octets *)
+Definition wks_set (bm : list Z) (serv : Z) : list Z :=
+  let i := serv / 8 in
+  let l := zlen bm in
+  let bm1 := if l <? i + 1 then bm ++ repeat 0 (Z.to_nat (i + 1 - l)) else bm in
+  set_nth (Z.to_nat i) (fun x => Z.lor x (Z.shiftr 128 (serv mod 8))) bm1.
+
+Definition wks_token_port (t : token) : res Z :=
+  do u <- unescape t;
+  let v := tvalue u in
+  if negb (is_nil v) && forallb is_decimal v then
+    let serv := dec_value v 0 in
+    if (serv <? 0) || (serv >? 65535) then Lib eSyntax else Ok serv
+  else Internal iNotModelled.      (* socket.getservbyname *)
+
+(* the ports of a bitmap in the order WKS.to_text lists them *)
+Definition wks_ports (bm : list Z) : list Z := window_types 0 0 bm.
+
 (* dns/rdtypes/IN/APL.py *)
 Fixpoint split_once (sep : Z) (s : list Z) : option (list Z * list Z) :=     (* s.split(sep, 1) with two results *)
   match s with
@@ -830,6 +852,9 @@ Definition print_field (st : style) (f : tfield) (v : tval) : res (list Z) :=
   | FOther, VBytes b => Ok (dec (zlen b) ++ (if is_nil b then [] else 32 :: b64encode b))
   | FGposStr, VBytes b => Ok b          (* self.latitude.decode(): the validated strings are ASCII *)
   | FAplRest, VApl items => do ts <- map_res apl_item_text items; Ok (join_sp ts)
+  | FAddr4S, VBytes b => ipv4_ntoa b
+  | FWksProto, VInt z => Ok (dec z)
+  | FWksPorts, VBytes bm => Ok (join_sp (map dec (wks_ports bm)))
   | FKeyRec, VKey f p a _ k =>          (* dnskeybase: f"{self.flags} {self.protocol} {self.algorithm} {key}" *)
       Ok (dec f ++ [32] ++ dec p ++ [32] ++ dec a ++ [32] ++ styled_base64ify k (s_b64_chunk st) (s_b64_sep st))
   | _, _ => Internal eBadCase
@@ -963,6 +988,15 @@ Definition parse_field (c : pctx) (f : tfield) (st : tstate) : res (tval * tstat
       do e <- utf8_encode (fst hs); do b <- b64decode e; Ok (VBytes b, snd hs)
   | FGposStr => do ts <- get_string st 0; Ok (VBytes (fst ts), snd ts)
   | FKeyRec => key_from_text st
+  | FAddr4S => do ts <- get_string st 0; Ok (VBytes (fst ts), snd ts)
+  | FWksProto =>
+      do ts <- get_string st 0;
+      if negb (is_nil (fst ts)) && forallb is_decimal (fst ts) then Ok (VInt (dec_value (fst ts) 0), snd ts)
+      else Internal iNotModelled      (* socket.getprotobyname *)
+  | FWksPorts =>
+      do ts <- get_remaining st 0;
+      do ports <- map_res wks_token_port (fst ts);
+      Ok (VBytes (truncate_bitmap (fold_left wks_set ports [])), snd ts)
   | FAplRest => do ts <- get_remaining st 0; do items <- map_res apl_item_of_token (fst ts); Ok (VApl items, snd ts)
   | FMac =>
       do ns <- get_uint max16 st 10;
@@ -1022,6 +1056,8 @@ Definition ctor_field (f : tfield) (v : tval) : res tval :=
   | FB64Tok maxlen, VBytes b => if zlen b >? maxlen then Internal iValueError else Ok v
   | FB64RestOpt, VBytes b => if zlen b >? 65535 then Internal iValueError else Ok v
   | FKeyRec, VKey f p _ at_ k => do a <- alg_from_text at_; Ok (VKey f p a [] k)
+  | FAddr4S, VBytes t => do b <- ipv4_aton t; Ok (VBytes b)
+  | FWksProto, VInt z => if (z <? 0) || (z >? 255) then Internal iValueError else Ok v
   | FGposStr, VBytes t =>     (* _as_bytes(value, True, 255): str.encode(), at most 255 octets *)
       do e <- utf8_encode t; if zlen e >? 255 then Internal iValueError else Ok (VBytes e)
   | FGw _, VGw g a gw =>      (* Gateway._check *)
@@ -1121,6 +1157,7 @@ Definition schema_of (rdtype : Z) : option (list tfield) :=
   else if rdtype =? 27 then Some [FGposStr; FGposStr; FGposStr]                    (* GPOS *)
   else if rdtype =? 25 then Some [FKeyRec]                                         (* KEY *)
   else if rdtype =? 42 then Some [FAplRest]                                        (* APL *)
+  else if rdtype =? 11 then Some [FAddr4S; FWksProto; FWksPorts]                   (* WKS *)
   else if rdtype =? 250 then Some [FNameNoRel; FDec max48; u16; FMac; u16; FEnum KRcode; FOther]   (* TSIG *)
   else if rdtype =? 45 then Some [u8; FGw true; FB64RestE]                         (* IPSECKEY *)
   else if rdtype =? 260 then Some [u8; FDec 1; FGw false]                          (* AMTRELAY *)
@@ -1242,6 +1279,9 @@ Fixpoint vals_of_obs (fs : list tfield) (os : list obs) : option (list tval) :=
           | FMac, B b => Some (VBytes b :: r)
           | FGposStr, B b => Some (VBytes b :: r)
           | FKeyRec, L [I f; I p; I a; B k] => Some (VKey f p a [] k :: r)
+          | FAddr4S, B b => Some (VBytes b :: r)
+          | FWksProto, I z => Some (VInt z :: r)
+          | FWksPorts, B b => Some (VBytes b :: r)
           | FAplRest, L l => match apl_of_obs l with Some its => Some (VApl its :: r) | None => None end
           | FOther, B b => Some (VBytes b :: r)
           | FGw _, L [I g; I a; I 0] => Some (VGw g a GwNone :: r)
